@@ -18,7 +18,7 @@ import time
 
 ID = 'C18'
 LEVEL = 'model_checking'
-RULE = ('explicit enumeration of ALL histories of length <= depth over 15 (deck, options) items chosen to collide (quick tier: '
+RULE = ('explicit enumeration of ALL histories of length <= depth over 17 (deck, options) items chosen to collide (quick tier: '
         'length 3 over the nine items built to collide in process state, length 2 for pairs involving the six others; '
         'thorough tier: length 4 over the nine, length 3 over all; only maximal histories are run since every step is compared) '
         '(identical cell / surface numbers with different geometry, universe and lattice decks, a deck that '
@@ -253,6 +253,37 @@ ITEMS['o'] = ("""deck o: fails while its filled cells (numbered like those of de
 
 m1 13027 1
 """, [])
+_SHARED = """deck p: one universe fills three containers without transformation, nothing is inlined (nodes with several cell references)
+1 0 -1 4 -5 -3 fill=5 imp:n=1
+2 0 -2 4 -5 -3 fill=5 imp:n=1
+3 0 -6 4 -5 -3 fill=5 imp:n=1
+11 1 -2.7 -10 11 u=5 imp:n=1
+12 2 -1.0 -10 -11 u=5 imp:n=1
+13 0 10 -12 u=5 fill=7 imp:n=1
+14 0 12 u=5 imp:n=1
+15 1 -2.7 -13 14 u=7 imp:n=1
+16 0 13 14 u=7 imp:n=1
+17 2 -1.0 -14 u=7 imp:n=1
+20 0 #1 #2 #3 -3 imp:n=1
+21 0 3 imp:n=0
+
+1 s -20 0 0 8
+2 s 20 0 0 8
+3 so 60
+4 pz -5
+5 pz 5
+6 s 0 20 0 8
+10 cx 3
+11 px 0
+12 cx 5
+13 py 1
+14 pz 0
+
+m1 13027 1
+m2 1001 2 8016 1
+"""
+ITEMS['p'] = (_SHARED, [])
+ITEMS['q'] = (_SHARED.replace('deck p', 'deck q'), ['--max-inline-score', '0'])
 NAMES = sorted(ITEMS)
 
 WORKER = r'''
